@@ -244,7 +244,16 @@ func (g *ProgGen) faultStmt() gast.Stmt {
 	var body []gast.Stmt
 	switch k {
 	case 1:
-		body = []gast.Stmt{gast.Assign{Name: "g1", X: gast.Infix{Op: "/", L: gast.IntLit{V: 1}, R: gast.Ident{Name: "ZERO"}}}}
+		div := gast.Infix{Op: "/", L: gast.IntLit{V: 1}, R: gast.Ident{Name: "ZERO"}}
+		switch r.Intn(3) {
+		case 0:
+			body = []gast.Stmt{gast.Assign{Name: "g1", X: div}}
+		case 1:
+			// the fault strikes in mid-expression, with operands already on the value stack
+			body = []gast.Stmt{gast.Assign{Name: "g1", X: gast.Infix{Op: "+", L: gast.IntLit{V: 7}, R: gast.Paren{X: div}}}}
+		default:
+			body = []gast.Stmt{gast.Assign{Name: "g1", X: gast.ArrayLit{Els: []gast.Expr{gast.IntLit{V: 4}, gast.StrLit{V: "five"}, div}}}}
+		}
 	case 2:
 		body = []gast.Stmt{gast.ExprStmt{X: gast.Call{Fn: "panic", Args: []gast.Expr{gast.StrLit{V: "boom"}}}}}
 	case 3:
@@ -393,12 +402,28 @@ func (g *ProgGen) stmt(depth int) []gast.Stmt {
 			}
 			body = append(body, gast.If{C: g.cond(1), Then: []gast.Stmt{g.traceStmt(), ret}})
 		}
+		var before, after []gast.Stmt
+		if r.Intn(4) == 0 {
+			// keep the index / element of some iteration in a variable that outlives the
+			// loop, and look at it after the loop has gone on
+			keep := g.assignTarget()
+			src := fe.Var
+			if fe.Idx != "" && r.Intn(2) == 0 {
+				src = fe.Idx
+			}
+			g.wid++
+			flag := fmt.Sprintf("kf%d", g.wid)
+			before = append(before, gast.Assign{Name: flag, X: gast.IntLit{V: 0}})
+			// in the first iteration only (so that later iterations have the chance to disturb it)
+			body = append(body, gast.If{C: gast.Infix{Op: "==", L: gast.Ident{Name: flag}, R: gast.IntLit{V: 0}}, Then: []gast.Stmt{gast.Assign{Name: keep, X: gast.Ident{Name: src}}, gast.Assign{Name: flag, X: gast.IntLit{V: 1}}}})
+			after = append(after, g.traceStmt(gast.Ident{Name: keep}))
+		}
 		fe.Body = body
 		g.loopVars = g.loopVars[:len(g.loopVars)-1]
 		if fe.Idx != "" {
 			g.loopVars = g.loopVars[:len(g.loopVars)-1]
 		}
-		return []gast.Stmt{fe}
+		return append(append(before, fe), after...)
 	case choice < 92:
 		return []gast.Stmt{g.switchStmt(depth)}
 	default:
